@@ -949,6 +949,18 @@ func (fc *fnCtx) execFrom(st *State, fr *frame, b *ssa.BasicBlock, i int) {
 		case *ssa.Call:
 			// continuation style: the rest of the block runs inside k
 			next := i + 1
+			if fr.spec != nil {
+				// hints to be established just before the call
+				for _, h := range fr.spec.Hints[-fr.callOrd[ins]] {
+					sc := fc.specCtxFor(st, fr)
+					sc.useNames = true
+					name := fc.oblName(fr, fmt.Sprintf("hint@before.call%d.%d", fr.callOrd[ins], h.Ord))
+					if g := fc.evalBoolClause(sc, h, name); g != "" {
+						fc.emit(st, name, "hint", h.Text, clauseLoc(h), g, h.Tags)
+						st.pc = append(st.pc, g)
+					}
+				}
+			}
 			preHeap, preNow := copyHeap(st.heap), st.now
 			fc.doCall(st, fr, ins, func(st *State, res Val) {
 				if ins.Type() != nil {
